@@ -60,6 +60,18 @@ CLAIMS = {
             "for any sequence of collection reports from any workers the published ones are the distinct texts in first-occurrence order, each counted once. Partial: field fidelity of "
             "reports and the tally equality with a single-process run are validated on real runs",
             "induction over message / report sequences (Lean 4) ; differential correspondence of the receiver and of DSession; end-to-end runs compared with -n0 (tallies, ids, fields, exit status, per-worker order)"),
+    "C02": ("Lean theorems for the two mechanisms: every check_schedule decision of the load scheduler for a live node leaves it with at least two queued tests, the shutdown signal or an "
+            "empty unassigned list (all maxschedchunk values incl. 0/negative, slow/fast); whenever any scheduler reports tests_finished at the end of a loop iteration every scheduled "
+            "worker has been told to shut down. Partial: absence of stand-offs in whole executions (six modes, crashes) is validated by the whole-system simulation on the real classes, not proved",
+            "arithmetic case analysis of check_schedule, DSession invariant (Lean 4) ; whole-system simulation with stand-off detection, differential correspondence of schedulers and of the worker threads (lock pre-emption)"),
+    "C08": ("Lean theorems about the each scheduler (repaired): schedule() sends runtests_all + shutdown to every new node with its whole collection as book, skips started and still-collecting "
+            "nodes; the crash item is the head of the dead node's book and the rest is parked; tests_finished is false while a rest is parked; a replacement of the same spec and collection "
+            "takes over exactly that rest (and is sent exactly it); a late node with nothing to take over, or with a different collection, is shut down",
+            "definitional unfolding lemmas with side conditions (Lean 4) ; differential correspondence of EachScheduling; whole-system simulation incl. heterogeneous environments"),
+    "C09": ("Lean theorems (load, worksteal, loadscope family): no disagreement report iff all registered collections equal the first; otherwise schedule() publishes exactly one failed report "
+            "per disagreeing worker naming the first worker, dispatches nothing and leaves the scheduler unchanged; loadscope family: a disagreeing late joiner is never registered and an "
+            "unregistered node is never assigned work. The late-joiner clause is FALSE for load/worksteal on the current code: negation proved on a witness (known finding F4)",
+            "list lemmas + unfolding of schedule() (Lean 4), negation witness by decide ; differential correspondence with permuted/missing/extra/duplicated/empty collections; whole-system simulation with disagreeing initial and replacement workers"),
 }
 
 NOT_YET = {}
